@@ -66,15 +66,18 @@ impl InkList {
         ink_list
     }
 
-    fn get_ordered_items(&self) -> Vec<(&InkListItem, &i32)> {
+    /// Total order on list items: by value, then origin name, then item name.
+    /// Used wherever one item has to be singled out or items have to be
+    /// listed, so that the result does not depend on hash iteration order.
+    fn compare_items(a: (&InkListItem, i32), b: (&InkListItem, i32)) -> std::cmp::Ordering {
+        a.1.cmp(&b.1)
+            .then_with(|| a.0.get_origin_name().cmp(&b.0.get_origin_name()))
+            .then_with(|| a.0.get_item_name().cmp(b.0.get_item_name()))
+    }
+
+    pub(crate) fn get_ordered_items(&self) -> Vec<(&InkListItem, &i32)> {
         let mut ordered: Vec<_> = self.items.iter().collect();
-        ordered.sort_by(|a, b| {
-            if a.1 == b.1 {
-                a.0.get_origin_name().cmp(&b.0.get_origin_name())
-            } else {
-                a.1.cmp(b.1)
-            }
-        });
+        ordered.sort_by(|a, b| Self::compare_items((a.0, *a.1), (b.0, *b.1)));
         ordered
     }
 
@@ -82,7 +85,7 @@ impl InkList {
         let mut max: Option<(&InkListItem, i32)> = None;
 
         for (k, v) in &self.items {
-            if max.is_none() || *v > max.as_ref().unwrap().1 {
+            if max.is_none() || Self::compare_items((k, *v), max.unwrap()).is_gt() {
                 max = Some((k, *v));
             }
         }
@@ -94,7 +97,7 @@ impl InkList {
         let mut min: Option<(&InkListItem, i32)> = None;
 
         for (k, v) in &self.items {
-            if min.is_none() || *v < min.as_ref().unwrap().1 {
+            if min.is_none() || Self::compare_items((k, *v), min.unwrap()).is_lt() {
                 min = Some((k, *v));
             }
         }
